@@ -27,6 +27,7 @@ pub const ERRNOS: &[(&str, i32)] = &[
     ("ENOMEM", libc::ENOMEM),
     ("EBADF", libc::EBADF),
     ("ENOTDIR", libc::ENOTDIR),
+    ("ESPIPE", libc::ESPIPE),
 ];
 
 pub fn errno_name(e: i32) -> String {
